@@ -54,7 +54,10 @@ def valueEq (be : Bool) (vr vr' : VR) (v v' : PValue) : Bool :=
   let b := rawValue be vr' v'
   if isTextual v || isTextual v' || vr = .DS || vr = .IS then
     textCanon a == textCanon b || trimTrail a == trimTrail b
-  else a == b || (a.length % 2 == 1 && b == a ++ [0])
+  else
+    -- binary: same bytes (up to the NUL pad) and, when the VR is unchanged, the same kind of numbers
+    (a == b || (a.length % 2 == 1 && b == a ++ [0])) &&
+    (vr != vr' || a.isEmpty || valueKind v == valueKind v')
 
 def fragEq (a b : Bytes) : Bool := a == b || (a.length % 2 == 1 && b == a ++ [0])
 
